@@ -688,3 +688,39 @@ Section Stream.
     - destruct (stream_step cap q c); [apply IH|discriminate].
   Qed.
 End Stream.
+
+(* ================================================================= peek-like data outputs *)
+Section Head.
+  Context {M : Type}.
+  (* when the dequeue fires, the delivered message is the head that was on show *)
+  Lemma fifo_head_delivered k n (q : list M) o :
+    f_deq_fire (snd (fifo_step k n q o)) = true ->
+    f_msg (snd (fifo_step k n q o)) = fifo_head q o (snd (fifo_step k n q o)).
+  Proof.
+    unfold fifo_step, fifo_head. destruct (fifo_rdys k n q o) as [er dr]. cbn [snd f_deq_fire f_deq_rdy f_enq_fire f_msg].
+    destruct dr; [|rewrite andb_false_r; discriminate]. intros H. rewrite H. reflexivity.
+  Qed.
+  (* it is the oldest queued message whenever the queue is not empty *)
+  Lemma fifo_head_oldest k n (a : M) q o : fifo_head (a :: q) o (snd (fifo_step k n (a :: q) o)) = Some a.
+  Proof.
+    unfold fifo_step, fifo_head, fifo_rdys. destruct k; cbn [q_empty negb orb fst snd f_deq_rdy f_enq_fire];
+      match goal with |- context [if ?b then (a :: q) ++ _ else _] => destruct b end; reflexivity.
+  Qed.
+  (* CL peek: read-only view of exactly what deq would return; ready exactly when deq is *)
+  Lemma cl_peek_is_deq (q : list M) : cl_peek q = snd (cl_deq q) /\ cl_peek_rdy q = cl_deq_rdy q.
+  Proof. split; reflexivity. Qed.
+  (* the consumer of a CL queue that peeks and then dequeues in the same block gets the peeked message *)
+  Lemma cl_peek_then_deq k n enq_first (q : list M) o : 0 < n -> length q <= n ->
+    f_deq_fire (snd (cl_step k n enq_first q o)) = true ->
+    (k = Pipe -> enq_first = false) -> (k = Bypass -> enq_first = true) ->
+    f_msg (snd (cl_step k n enq_first q o)) = cl_peek (cl_at_consumer enq_first q o (snd (cl_step k n enq_first q o))).
+  Proof.
+    intros Hn Hq. unfold cl_step, cl_at_consumer, cl_peek, cl_deq, cl_enq.
+    destruct k; cbn [snd fst f_deq_fire f_enq_fire f_msg].
+    - destruct enq_first; cbn [andb]; intros H _ _; rewrite H; cbn [snd];
+        destruct (o_enq o && cl_enq_rdy n q); reflexivity.
+    - intros H Hp _. rewrite (Hp eq_refl). cbn [andb]. rewrite H. reflexivity.
+    - intros H _ Hb. rewrite (Hb eq_refl). cbn [andb]. rewrite H. cbn [snd].
+      destruct (o_enq o && cl_enq_rdy n q); reflexivity.
+  Qed.
+End Head.
